@@ -98,12 +98,14 @@ def gen_cases(tier, seed):
                       scale=True)
     n = 2500 if tier == 'quick' else 16 * 6000
     for i in range(n):
-        yield gen_one(random.Random(f'C11/{seed}/{tier}/{i}'), tier)
+        case = gen_one(random.Random(f'C11/{seed}/{tier}/{i}'), tier)
+        case['falsy_handles'] = i % 5 == 0
+        yield case
 
 
 def run_case(case):
     res = Res()
-    drv = tl.TreeDriver(res)
+    drv = tl.TreeDriver(res, falsy=case.get('falsy_handles', False))
     for at, op in enumerate(case['ops']):
         name = op[0]
         try:
